@@ -97,6 +97,8 @@ class PathCtx:
             self.light.set('random_seed', explorer.seed % (2 ** 30))
         self.n_heavy = 0
         self.last_model = None
+        self.check_div = False
+        self.div_zero = []
         self.atoms = []
         self.atom_keys = []
         self.atom_by_key = {}
@@ -452,5 +454,8 @@ class Explorer:
                 _CUR[0] = None
             self.stats.paths += 1
             work.extend(c.new_work)
+            if isinstance(out, dict) and out.get('stop'):
+                self.budget_note = out['stop']
+                return results
         self.exhausted = True
         return results
